@@ -20,7 +20,7 @@ import (
 // the full 64-bit range and texts that must be refused.
 func TestC19GeneratedEnums(t *testing.T) {
 	rec := evid.New(t, "C19", "enum definitions from the random dialect model (ordinary/bitmask, decimal/0x/0b/a**b values, multi-bit entries, enums extended by an includer, bitmask attribute spelled true/1/false/0/absent) converted by conversion.Convert, compiled, and probed: every defined constant, single flag, generated flag combination, zero and unnamed 64-bit values must render as the property says and parse back to the same value; texts that are no name, combination or number must be refused; non-trivial = dialect with both an ordinary and a bitmask enum; distinct by hash of the XML")
-	rec.Require("generated-ordinary-enum", "generated-bitmask-enum", "bitmask-attribute-spelled-0-or-false", "bitmask-attribute-spelled-1", "definitions-sharing-an-included-file-whose-enum-one-of-them-extends")
+	rec.Require("generated-ordinary-enum", "generated-bitmask-enum", "bitmask-attribute-spelled-0-or-false", "bitmask-attribute-spelled-1", "second-definition-sharing-the-included-files")
 	root := scratch(t)
 	defer os.RemoveAll(root)
 	evid.Check(t, rec, evid.N(8, 40), func(t *rapid.T) {
@@ -70,6 +70,7 @@ func TestC19GeneratedEnums(t *testing.T) {
 				}
 				batch = append(batch, sib)
 				pkgDirs = append(pkgDirs, sub)
+				rec.Class("second-definition-sharing-the-included-files", 1)
 				if len(sib.ExtraProbe) > 0 {
 					rec.Class("definitions-sharing-an-included-file-whose-enum-one-of-them-extends", 1)
 				}
